@@ -879,7 +879,13 @@ fn odd_sizes<const N: usize, const D: usize>(reg: Reg, rng: &mut Prng, col: &mut
         return;
     }
     if d.tx_since(ev0).is_empty() {
-        col.violation(&format!("C04|cannot-transmit-afterwards|nb|send|{}|odd-sizes:N={},D={}", r.kind(), N, D), "after the history the device no longer hands a frame to the radio", json!({"region": reg.name(), "trace": trace, "response": format!("{:?}", r)}));
+        let pending = d.dev.get_session().map(|s| serde_json::to_value(s).map(|v| v["uplink"]["pending_len"].clone()).unwrap_or_default());
+        // (an error is named in the signature, so that a refusal for one reason does not hide a refusal for another)
+        let rk = match &r {
+            Resp::Error(e) => format!("Error:{}", e),
+            _ => r.kind().to_string(),
+        };
+        col.violation(&format!("C04|cannot-transmit-afterwards|nb|send|{}|odd-sizes:N={},D={}", rk, N, D), "after the history the device no longer hands a frame to the radio", json!({"region": reg.name(), "trace": trace, "response": format!("{:?}", r), "queued_mac_answer_octets": pending}));
     } else {
         col.event("still_transmits");
     }
